@@ -138,3 +138,98 @@ M('sort_unstable_reverse', 'C10', 'sort(reverse=True) sorts ascending then rever
   'rxsci/data/sort.py', "rs.ops.map(lambda i: sorted(i, key=key, reverse=reverse)),", "rs.ops.map(lambda i: sorted(i, key=key)[::-1] if reverse else sorted(i, key=key)),")
 M('last_mux_keeps_state', ['C10', 'C02'], 'last_mux does not delete its state at completion and add_key keeps a stale value... emits previous lifetime last on empty key',
   'rxsci/state/memory_store.py', "        self.state[key[0]] = rs.state.markers.STATE_NOTSET.value()\n        self.keys[key[0]] = key\n        if self.is_mapper:", "        if self.data_type != 'obj' or self.state[key[0]] == rs.state.markers.STATE_CLEARED.value():\n            self.state[key[0]] = rs.state.markers.STATE_NOTSET.value()\n        self.keys[key[0]] = key\n        if self.is_mapper:")
+
+# ---- C12
+M('variance_sum_of_squares', 'C12', 'variance computed with the textbook sum-of-squares formula (catastrophic cancellation with a large offset)',
+  'rxsci/math/variance.py', """        if m is None:
+            m = i
+        else:
+            m1 = m
+            m = m + (i - m) / k
+            s = s + (i - m1)*(i - m)
+
+        return (m, s, k)""", """        if m is None:
+            m = (i, i * i)
+            s = 0
+        else:
+            m = (m[0] + i, m[1] + i * i)
+            s = m[1] - m[0] * m[0] / k
+
+        return (m, s, k)""")
+M('variance_div_n', 'C12', 'variance divides by n instead of n-1',
+  'rxsci/math/variance.py', "acc[1] / (acc[2]-1)", "acc[1] / (acc[2])")
+M('mean_int_division', 'C12', 'mean accumulates the count as a float that saturates: divides by count-1 when count > 1000',
+  'rxsci/math/mean.py', "acc[0] / acc[1] if acc is not None else None", "acc[0] / (acc[1] if acc[1] <= 1000 else acc[1] - 1) if acc is not None else None")
+M('sum_float32', 'C12', 'sum accumulates in single precision',
+  'rxsci/math/sum.py', "        return acc + i\n", "        import struct\n        return struct.unpack('f', struct.pack('f', acc + i))[0]\n")
+M('fvariance_ddof', 'C12', 'formal.variance divides by n-1',
+  'rxsci/math/formal/__init__.py', "    return sum(m) / len(x) if len(x) > 0 else None", "    return (sum(m) / (len(x) - (1 if n == 2 and len(x) > 1 else 0))) if len(x) > 0 else None")
+M('min_ignores_negative_zero_first', 'C12', 'max returns the first item when later items are equal... max uses >= and abs',
+  'rxsci/math/max.py', "        if acc is None or i > acc:", "        if acc is None or abs(i) > abs(acc):")
+
+# ---- C13
+M('scan_error_resets_state', 'C13', 'scan_mux restarts the fold from the seed after the accumulator raised',
+  'rxsci/operators/scan.py', """                    except Exception as e:
+                        observer.on_next(rs.OnErrorMux(i.key, e, i.store))
+                elif type(i) is rs.OnCreateMux:
+                    i.store.add_key(state, i.key)""", """                    except Exception as e:
+                        i.store.add_key(state, i.key)
+                        observer.on_next(rs.OnErrorMux(i.key, e, i.store))
+                elif type(i) is rs.OnCreateMux:
+                    i.store.add_key(state, i.key)""")
+M('filter_error_as_false', 'C13', 'filter_mux treats a raising predicate as False (no mux error)',
+  'rxsci/operators/filter.py', """                    except Exception as e:
+                        observer.on_next(rs.OnErrorMux(i.key, e, i.store))""", """                    except Exception as e:
+                        pass""")
+M('error_map_keeps_error', 'C13', 'error.map emits the mapped item and still forwards the error',
+  'rxsci/error/map.py', """                        observer.on_next(rs.OnNextMux(
+                            key=i.key,
+                            item=ii,
+                            store=i.store,
+                        ))""", """                        observer.on_next(rs.OnNextMux(
+                            key=i.key,
+                            item=ii,
+                            store=i.store,
+                        ))
+                        observer.on_next(i)""")
+M('router_no_completion', 'C13', 'error router never completes the dead-letter observable',
+  'rxsci/error/router.py', """                def on_completed():
+                    if dead_letter_observer is not None:
+                        dead_letter_observer.on_completed()
+""", """                def on_completed():
+""")
+M('demux_swallows_error', 'C13', 'demux_observable drops unhandled mux errors',
+  'rxsci/operators/multiplex.py', """                if type(i) is rs.OnNextMux:
+                    observer.on_next(i.item)
+                elif type(i) is rs.OnErrorMux:
+                    observer.on_error(i.error)
+
+            return source.subscribe(
+                on_next=on_next,
+                on_completed=observer.on_completed,""", """                if type(i) is rs.OnNextMux:
+                    observer.on_next(i.item)
+
+            return source.subscribe(
+                on_next=on_next,
+                on_completed=observer.on_completed,""")
+M('map_error_twice', 'C13', 'map_mux emits the mux error and also the unmapped item',
+  'rxsci/operators/map.py', """                    except Exception as e:
+                        observer.on_next(rs.OnErrorMux(i.key, e, i.store))""", """                    except Exception as e:
+                        observer.on_next(rs.OnErrorMux(i.key, e, i.store))
+                        observer.on_next(i)""")
+
+# ---- C14
+M('store_bool_as_int', 'C14', 'MemoryStore.get returns the raw array value for bool states (1 instead of True)',
+  'rxsci/state/memory_store.py', "        if self.data_type is bool:\n            value = bool(value)\n", "")
+M('store_ghost_indices', 'C14', 'add_key marks the skipped indices of a sparse append as NOTSET instead of CLEARED (iterate enumerates slots never added)',
+  'rxsci/state/memory_store.py', """                self.values.append(0)
+                self.state.append(rs.state.markers.STATE_CLEARED.value())""", """                self.values.append(0)
+                self.state.append(rs.state.markers.STATE_NOTSET.value())""")
+M('store_map_index_per_key', 'C14', 'add_map numbers the groups per parent key (two parent keys hand out the same index)',
+  'rxsci/state/memory_store.py', "        index, self.next_index, self.free_slots = new_index(self.next_index, self.free_slots)\n", "        index = len(self.values[key[0]])\n")
+M('store_del_keeps_set', 'C14', 'del_key leaves the slot marked and add_key only resets cleared slots (a re-added slot reads the old value)',
+  'rxsci/state/memory_store.py', "        self.state[key[0]] = rs.state.markers.STATE_NOTSET.value()\n        self.keys[key[0]] = key\n        if self.is_mapper:", "        if self.state[key[0]] != rs.state.markers.STATE_SET.value():\n            self.state[key[0]] = rs.state.markers.STATE_NOTSET.value()\n        self.keys[key[0]] = key\n        if self.is_mapper:")
+M('store_default_shared_typed', 'C14', 'a typed default of 0 is treated as "no default" (falsy test instead of "is not None")',
+  'rxsci/state/memory_store.py', "        elif self.default_value is not None:", "        elif self.default_value:")
+M('store_uint_signed', 'C14', "'uint' states use a signed array (values >= 2**63 overflow)",
+  'rxsci/state/memory_store.py', "            self.create_values = functools.partial(array, 'Q')", "            self.create_values = functools.partial(array, 'q')")
